@@ -3,7 +3,7 @@
 import collections, glob, json, sys
 prop = sys.argv[1]
 n = int(sys.argv[2]) if len(sys.argv) > 2 else 700
-seen = collections.Counter(); ex = {}
+seen = collections.Counter(); ex = {}; inc = set()
 for f in glob.glob(f'/verif/.work/{prop}-*/shard*.jsonl'):
     for l in open(f):
         try: r = json.loads(l)
@@ -11,6 +11,8 @@ for f in glob.glob(f'/verif/.work/{prop}-*/shard*.jsonl'):
         if r.get('t') == 'violation':
             s = r['monitor'] + ' ' + r['signature']; seen[s] += 1
             if s not in ex and r.get('witness'): ex[s] = r['witness']
-        if r.get('t') == 'inconclusive': print('INCONCLUSIVE', str(r)[:600])
+        if r.get('t') == 'inconclusive':
+            k = str(r)[:120]
+            if k not in inc: inc.add(k); print('INCONCLUSIVE', str(r)[:400])
 for s, c in seen.most_common():
     print(c, s); print('     ', json.dumps(ex.get(s), default=str)[:n])
